@@ -269,6 +269,16 @@ def canon(res):
     return disc, nums, labels, other
 
 
+def underflow_range(res, eps=1e-30):
+    """some trained probability of the reference model is positive but below eps (or exactly 0)"""
+    for tag in ("model_after_u", "model_final"):
+        for (_c, _i, m, u) in res[tag]["levels"]:
+            for v in (m, u):
+                if v is not None and v < eps:
+                    return True
+    return False
+
+
 def finite(x):
     return isinstance(x, (int, float)) and not isinstance(x, bool) and math.isfinite(x)
 
@@ -366,6 +376,11 @@ def correspondence(ctx: Ctx, backends):
                 ctx.violation(f"pipeline succeeds on duckdb but raises on {b}: {type(e).__name__}: {str(e)[:200]}",
                               {"case": case, "implementation": f"{b}: {e!r}"[:400], "specification": "duckdb: success"},
                               {"dialect": b, "asymmetric_failure": True, "comparisons": sorted(case["spec"]["comparisons"])})
+                continue
+            if ref["em_sessions"] != oth["em_sessions"] and underflow_range(ref):
+                # Appendix A hazard: EM on a tiny table drives an m probability into the denormal range; whether a product of
+                # Bayes factors underflows to exactly 0 (then log2(0) raises) is engine float noise, not a linkage difference
+                ctx.hist("skipped_underflow_degenerate_em", b)
                 continue
             term, diffs, stats = compare(ctx, case, ref, oth, b)
             nontrivial = stats["pairs"] >= 10 and stats["gamma_nonzero"] >= 5 and stats["clusters"] < stats["nodes"]
